@@ -189,7 +189,7 @@ class World(BaseWorld):
             ops.append(o)
         ops.append({'op': ro.choice(['create', 'solve_system'])})
         # ---- sweep phase
-        nsweep = ro.randrange(1, 5)
+        nsweep = ro.randrange(1, 5) if tier != 'thorough' else ro.randrange(1, 9)
         for _ in range(nsweep):
             for _ in range(ro.choice([1, 1, 2])):
                 ops.append(self.gen_edit(ro, target, types, gdom, use_file))
